@@ -3,8 +3,10 @@ import json
 from vlib import core
 from checks import codec_common as cc
 
-THEOREMS = ['decParam_progress', 'decParam_suffix']
-MODULES = ['LLRP.Model.Codec', 'LLRP.Model.Schema', 'LLRP.Model.Bytes']
+THEOREMS = ['decParam_progress', 'decParam_suffix', 'fuel_mono', 'fuel_mono_groups', 'fuel_mono_singles', 'fuel_mono_choice',
+            'fuel_mono_loop', 'fuel_mono_param', 'decode_of_decBody', 'decode_fuel', 'decode_fuel_bound', 'decode_error_genuine',
+            'gen_maxSlots', 'fuel_needs_table', 'decParam_nodes', 'decoded_params_le']
+MODULES = ['LLRP.Model.Codec', 'LLRP.Model.Schema', 'LLRP.Model.Bytes', 'LLRP.Proofs.DecodeFuel', 'LLRP.Proofs.DecodeSize']
 RULE = ('per type: valid encodings of generated values, every truncation point (sampled when > 80 bytes in quick), every plausible TLV length '
         'field set to 0,1,2,3,4,len-1,len+1,len+4,0xffff, type codes flipped (neighbour, TV-for-TLV, reserved bit), 16-bit fields forced to '
         '0/1/0xffff/len/len+1 at random offsets, byte corruption, trailing junk, short TV/TLV shaped inputs, random strings; plus 64 KiB random '
